@@ -23,6 +23,8 @@ UNIT = {
             'attrs': ['#[verifier::exec_allows_no_decreases_clause]'],
             'token_rewrites': [
                 ('line . is_empty ( )', 'verif_line_is_empty(&line)'),
+                # (nowhere in the pinned code; lets a test on the line's last character be judged instead of ending UNDECIDED)
+                ("line . ends_with ( '\\n' )", 'verif_ends_with_newline(&line)', '*'),
                 ('self . raw_code . value . borrow_mut ( ) . push_str ( & line ) ;', 'verif_append_raw(&self.raw_code, &line);'),
                 ('self . source . extend ( ex ( source_chars ( & line , & self . raw_code , index ) ) ) ;', 'verif_extend_source(&mut self.source, &line, &self.raw_code, index);'),
             ],
